@@ -33,6 +33,9 @@ type c08Step struct {
 	S       int    `json:"s"`
 	I       int    `json:"i"`
 	Collect bool   `json:"collect,omitempty"`
+	// Sanitize: with Collect: hand the result back through Sanitize{Map,List}AndCollect; the messages returned must be
+	// the ones the result carried
+	Sanitize bool `json:"sanitize,omitempty"`
 	Fmt     string `json:"fmt,omitempty"` // WithIssueFormatter stamping this marker
 }
 
@@ -154,7 +157,35 @@ func propC08(c c08Case) hh.Verdict {
 					if bad != "" {
 						return
 					}
-					if st.Collect {
+					if st.Collect && st.Sanitize {
+						// what the caller is entitled to read: the messages as they stand in its own result
+						var want, have string
+						if res.IsMap {
+							w := map[string][]string{}
+							for k, l := range res.Map {
+								for _, is := range l {
+									w[k] = append(w[k], is.Message)
+								}
+							}
+							want = fmt.Sprint(w)
+							have = fmt.Sprint(map[string][]string(z.Issues.SanitizeMapAndCollect(res.Map)))
+						} else {
+							var w []string
+							for _, is := range res.List {
+								w = append(w, is.Message)
+							}
+							want = fmt.Sprint(w)
+							have = fmt.Sprint([]string(z.Issues.SanitizeListAndCollect(res.List)))
+						}
+						if want != have {
+							mu.Lock()
+							if firstErr == "" {
+								firstErr = fmt.Sprintf("goroutine %d round %d step %d: schema #%d input #%d [%s]: the Sanitize...AndCollect helper returned\n  %s\nbut the messages of this call's own result were\n  %s", g, r, k, st.S, st.I, b.mode, have, want)
+							}
+							mu.Unlock()
+							return
+						}
+					} else if st.Collect {
 						if res.IsMap {
 							z.Issues.CollectMap(res.Map)
 						} else {
@@ -238,7 +269,7 @@ func genC08(rt *rapid.T, thorough bool) c08Case {
 		var plan []c08Step
 		for k, n := 0, rapid.IntRange(5, 25).Draw(rt, "plen"); k < n; k++ {
 			s := rapid.IntRange(0, ns-1).Draw(rt, "s")
-			plan = append(plan, c08Step{S: s, I: rapid.IntRange(0, len(c.Schemas[s].Inputs)-1).Draw(rt, "i"), Collect: rapid.IntRange(0, 3).Draw(rt, "collect") == 0,
+			plan = append(plan, c08Step{S: s, I: rapid.IntRange(0, len(c.Schemas[s].Inputs)-1).Draw(rt, "i"), Collect: rapid.IntRange(0, 3).Draw(rt, "collect") == 0, Sanitize: rapid.Bool().Draw(rt, "sanitize"),
 				Fmt: rapid.SampledFrom([]string{"", "", "FMT-A", "FMT-B"}).Draw(rt, "fmt")})
 		}
 		c.Plans = append(c.Plans, plan)
@@ -299,7 +330,7 @@ func stripGatedPosts(c *c08Case) {
 
 func TestC08(t *testing.T) {
 	h := hh.Start(t, "C08",
-		"cases = workloads: 3-8 shared schema objects (all kinds, Catch, own-destination PostTransforms, struct-level tests) with 2-5 inputs each; 8-32 goroutines start together and each runs a generated plan of 5-25 (schema, input, collect-own-result?) steps for 6 (thorough 20) rounds against the SHARED schema objects with private inputs and destinations; binary built with -race; non-trivial = some schema object was used by >=2 goroutines in the workload; distinct = FNV-1a of the case JSON",
+		"cases = workloads: 3-8 shared schema objects (all kinds, Catch, own-destination PostTransforms, struct-level tests) with 2-5 inputs each; 8-32 goroutines start together and each runs a generated plan of 5-25 (schema, input, collect-own-result through Collect* or Sanitize*AndCollect?) steps for 6 (thorough 20) rounds against the SHARED schema objects with private inputs and destinations; binary built with -race; non-trivial = some schema object was used by >=2 goroutines in the workload; distinct = FNV-1a of the case JSON",
 		"the goroutines start on COLD library state (expected issues come from the executable specification, not from a sequential warm-up run): every concurrent call must (a) report the issues the specification gives for it, (b) agree with every other concurrent call of the same schema and input, (c) equal what the same call returns running alone afterwards (issues incl. messages, destination); any report of the Go race detector during the run is a violation (detected by the driver from the process output). Lists marked long grow by 8 elements from workload to workload so that lazily grown shared state is extended while goroutines run",
 		"random schedules only: the harness does not own the scheduler; a schedule-dependent failure is reported with the workload, not with a replayable interleaving",
 		"PostTransforms are kept only on schemas none of whose inputs produce issues (otherwise their effect is visit-order dependent by the documented gating)")
